@@ -66,12 +66,13 @@ class _TemplateBuildDistinguisherMixin(partitioned._PartitionnedDistinguisherBas
         tmp_counters = _np.copy(self._counters).astype(self.precision)
         if _np.any(tmp_counters <= 1):
             logger.warning('Some template categories have less than 2 traces to build template')
+        counters = _np.copy(tmp_counters)
         tmp_counters[tmp_counters <= 1] = 2
 
-        templates = (self._exi.swapaxes(0, 1) / tmp_counters).swapaxes(0, 1)
+        templates = (self._exi.swapaxes(0, 1) / _np.maximum(counters, 1)).swapaxes(0, 1)
         tmp_matrix = None
         for i, p in enumerate(self.partitions):
-            tmp_matrix = (_np.outer(templates[i], templates[i]) * tmp_counters[i])
+            tmp_matrix = (_np.outer(templates[i], templates[i]) * counters[i])
             self.pooled_covariance += (self._exxi[i] - tmp_matrix) / (tmp_counters[i] - 1)
 
         self.pooled_covariance /= len(self.partitions)
